@@ -21,6 +21,7 @@ func main() {
 	}
 	defer drv.Close()
 	runTime(f, res, drv)
+	runSeg(f, res, drv)
 	if err := res.Write(f.Out); err != nil {
 		lib.Fatal(err)
 	}
@@ -36,11 +37,21 @@ func replay(f lib.Flags) int {
 		fmt.Println("replay: no concrete input in file (", rp.Kind, rp.Broken, ")")
 		return 2
 	}
-	c := tcase{Op: fmt.Sprint(in["op"]), A: fmt.Sprint(in["a"]), B: fmt.Sprint(in["b"])}
 	m := lib.NewMonitor("replay", "")
-	out := c.runCode()
-	c.monitor(m, out)
-	fmt.Printf("replay %v -> code=%s\n", c, out)
+	if op := fmt.Sprint(in["op"]); segOps[op] {
+		c := scase{Op: op, L: fmt.Sprint(in["l"])}
+		if d, ok := in["d"]; ok {
+			c.D = fmt.Sprint(d)
+		}
+		o := c.runCode()
+		c.monitor(m, o)
+		fmt.Printf("replay %s -> code=%s\n", c.line(), o.text)
+	} else {
+		c := tcase{Op: op, A: fmt.Sprint(in["a"]), B: fmt.Sprint(in["b"])}
+		out := c.runCode()
+		c.monitor(m, out)
+		fmt.Printf("replay %v -> code=%s\n", c, out)
+	}
 	if len(m.Violations) > 0 {
 		for _, v := range m.Violations {
 			fmt.Printf("STILL FAILS %s: %s (expected %s, observed %s)\n", v.Signature, v.What, v.Expected, v.Observed)
